@@ -24,6 +24,7 @@ import (
 	"github.com/olive-io/bpmn/schema"
 	"github.com/olive-io/bpmn/v2/pkg/errors"
 	"github.com/olive-io/bpmn/v2/pkg/tracing"
+	"github.com/olive-io/bpmn/v2/pkg/verifhook"
 )
 
 type eventBasedGateway struct {
@@ -74,6 +75,7 @@ func (gw *eventBasedGateway) run(ctx context.Context, sender tracing.ISenderHand
 					actionTransformer: func(sequenceFlowId *schema.IdRef, action IAction) IAction {
 						// only the first one is to flow
 						if atomic.CompareAndSwapInt32(&first, 0, 1) {
+							verifhook.Point("ebg.cas")
 							gw.tracer.Send(DeterminationMadeTrace{Node: gw.element})
 							for terminationCandidateId, ch := range terminationChannels {
 								if sequenceFlowId != nil && terminationCandidateId != *sequenceFlowId {
